@@ -56,7 +56,8 @@ func cmdFunc(args []string) {
 		}
 	}
 	sort.Strings(keys)
-	solver := newSolver("/tmp/govc-q", 0, *ms, 12)
+	solver := newSolver("/tmp/govc-q", 0, *ms, 16)
+	solver.lastResort = *thorough
 	for _, k := range keys {
 		fn := P.funcs[k]
 		if *ssaDump {
@@ -71,7 +72,7 @@ func cmdFunc(args []string) {
 				fmt.Println(l)
 			}
 		}
-		vs := solver.solveAll(res.Ex, res.Obls)
+		vs := P.solveFunc(solver, res, *thorough, nil)
 		for _, v := range vs {
 			ok := v.Status == "unsat"
 			if v.Obl.Cover {
@@ -85,4 +86,3 @@ func cmdFunc(args []string) {
 		}
 	}
 }
-
